@@ -249,6 +249,29 @@ func (c *p5) keyFromSameMap(fn *Func, ie *ast.IndexExpr) bool {
 					continue
 				}
 				if call, ok := r.(*ast.CallExpr); ok && isBuiltinCall(info, call, "append") && len(call.Args) == 2 {
+					// the key is remembered right where it is inserted: m[k] = v; keys = append(keys, k)
+					if aid, ok := ast.Unparen(call.Args[1]).(*ast.Ident); ok {
+						if blk, ok := fn.Prog.parents[s].(*ast.BlockStmt); ok {
+							inserted := false
+							for _, sib := range blk.List {
+								as2, ok := sib.(*ast.AssignStmt)
+								if !ok || len(as2.Lhs) != 1 || len(as2.Rhs) != 1 {
+									continue
+								}
+								ix2, ok := ast.Unparen(as2.Lhs[0]).(*ast.IndexExpr)
+								if !ok || fn.Canon(ix2.X) != mp {
+									continue
+								}
+								if kid2, ok := ast.Unparen(ix2.Index).(*ast.Ident); ok && info.ObjectOf(kid2) == info.ObjectOf(aid) {
+									inserted = true
+								}
+							}
+							if inserted {
+								n++
+								continue
+							}
+						}
+					}
 					if aid, ok := ast.Unparen(call.Args[1]).(*ast.Ident); ok {
 						ao := info.ObjectOf(aid)
 						if aas := fn.Assignments(ao); len(aas) == 1 {
@@ -1293,6 +1316,11 @@ func (c *p5) pathNonNil(fn *Func, e ast.Expr, path string, at ast.Node, depth in
 						}
 					}
 				}
+				if k == 1 && b.Kind == cfg.KindRangeLoop && obj != nil && c.rangeRedefinesOnEveryIteration(fn, b, obj, d.node) {
+					// the loop runs at least once and every complete iteration re-defines the
+					// variable: this definition does not survive the loop
+					continue
+				}
 				if seen[s] {
 					continue
 				}
@@ -1491,4 +1519,98 @@ func (c *p5) exception(fn *Func, base ast.Expr, at ast.Node) (string, bool) {
 // p5Exceptions: reviewed, keyed function|expression.
 var p5Exceptions = map[string]string{
 	"decoder/internal/schemahelper.buildDynamicBlockSchema|sourceSchema.Blocks[blockName]": "both callers pass a source schema whose Blocks contain every key of the input schema's Blocks (MergeBlockBodySchemas copies the dependent blocks into the merged schema just before, or passes the same schema twice)",
+}
+
+// rangeRedefinesOnEveryIteration: head is the head block of `for … := range S`. True when
+//   - S is provably non-empty at the loop (a dominating len(S) == 0 / len(S) < 1 test left the
+//     function, or len(S) > 0 / != 0 holds), S being a variable nobody re-assigns in between,
+//   - the definition `def` of obj lies outside the loop, and
+//   - every path through the body from its entry back to the head crosses an assignment to obj
+//     (paths that leave the function or break out of the loop are judged on their own edges).
+//
+// Then the exit edge of the head is never taken with def's value still in obj.
+func (c *p5) rangeRedefinesOnEveryIteration(fn *Func, head *cfg.Block, obj types.Object, def ast.Node) bool {
+	rs, ok := head.Stmt.(*ast.RangeStmt)
+	if !ok || len(head.Succs) != 2 {
+		return false
+	}
+	info := fn.Info()
+	if def != nil && def.Pos() >= rs.Body.Pos() && def.End() <= rs.Body.End() {
+		return false
+	}
+	sid, ok := ast.Unparen(rs.X).(*ast.Ident)
+	if !ok {
+		return false
+	}
+	so := info.ObjectOf(sid)
+	switch info.TypeOf(rs.X).Underlying().(type) {
+	case *types.Slice, *types.Map:
+	default:
+		return false
+	}
+	nonEmpty := fn.GuardsAt(rs.X).Holds(func(a *Atom) bool {
+		be, ok := ast.Unparen(a.E).(*ast.BinaryExpr)
+		if !ok || a.E == nil {
+			return false
+		}
+		call, ok := ast.Unparen(be.X).(*ast.CallExpr)
+		if !ok || !isBuiltinCall(info, call, "len") || len(call.Args) != 1 {
+			return false
+		}
+		if id, ok := ast.Unparen(call.Args[0]).(*ast.Ident); !ok || info.ObjectOf(id) != so {
+			return false
+		}
+		tv, ok := info.Types[be.Y]
+		if !ok || tv.Value == nil {
+			return false
+		}
+		v := tv.Value.ExactString()
+		hit := false
+		switch {
+		case be.Op == token.EQL && v == "0", be.Op == token.LSS && v == "1", be.Op == token.LEQ && v == "0":
+			hit = !a.Pol
+		case be.Op == token.NEQ && v == "0", be.Op == token.GTR && v == "0", be.Op == token.GEQ && v == "1":
+			hit = a.Pol
+		}
+		if !hit {
+			return false
+		}
+		ok2, _ := fn.guardStillValid(a, a.E, rs.X)
+		return ok2
+	})
+	if !nonEmpty {
+		return false
+	}
+	// every path body → head crosses an assignment to obj
+	assigns := map[*cfg.Block]bool{}
+	for _, a := range fn.Assignments(obj) {
+		if a.Pos() >= rs.Body.Pos() && a.End() <= rs.Body.End() {
+			if b := fn.BlockOf(a); b != nil {
+				if _, isRange := a.(*ast.RangeStmt); !isRange {
+					assigns[b] = true
+				}
+			}
+		}
+	}
+	if len(assigns) == 0 {
+		return false
+	}
+	seen := map[*cfg.Block]bool{}
+	var back func(b *cfg.Block) bool // true: the head is reachable from b without an assignment
+	back = func(b *cfg.Block) bool {
+		if b == head {
+			return true
+		}
+		if seen[b] || assigns[b] {
+			return false
+		}
+		seen[b] = true
+		for _, s := range b.Succs {
+			if back(s) {
+				return true
+			}
+		}
+		return false
+	}
+	return !back(head.Succs[0])
 }
